@@ -29,7 +29,6 @@ import (
 	"os"
 	"os/exec"
 	"path/filepath"
-	"regexp"
 	"sort"
 	"strconv"
 	"strings"
@@ -268,9 +267,99 @@ func (w *world) bodies() []func() {
 	return out
 }
 
-var keyRE = regexp.MustCompile(`^[0-9a-f]{64}$`)
+// How entries are named is the implementation's business (today: hex SHA-256 of the URL). The lister invariant
+// "a leftover temporary file is never mistaken for an entry" is therefore judged against names LEARNED from the
+// code under test: every URL (and a few more, for the shape) is stored once into an empty directory and the
+// resulting file names are taken as that URL's entry names; the common shape (length and character class) of all
+// learned names is what "looks like an entry" means.
+type naming struct {
+	known map[string]bool     // entry names of the scenario URLs
+	shape func(string) bool   // nil: the learned names have no common shape, the lister invariant is not judged
+	desc  string
+}
 
-func keyOf(u string) string { h := sha256.Sum256([]byte(u)); return hex.EncodeToString(h[:]) }
+var (
+	namingOnce sync.Once
+	learned    *naming
+)
+
+func entryNaming(bs *bundleSet) *naming {
+	namingOnce.Do(func() {
+		n := &naming{known: map[string]bool{}}
+		learned = n
+		base := filepath.Join(hx.Scratch(), fmt.Sprintf("learn-%d", os.Getpid()))
+		defer os.RemoveAll(base)
+		var all []string
+		extra := []string{"http://crl.example/x.crl", "https://other.example/some/longer/path/y.crl?z=1", "u"}
+		for i, u := range append(append([]string{}, urls...), extra...) {
+			d := filepath.Join(base, fmt.Sprint(i))
+			c, err := crl.NewFileCache(d)
+			if err != nil || c.Set(ctx, u, bs.bundles["A"]) != nil {
+				n.desc = "not learned: a store into an empty directory failed"
+				return
+			}
+			es, _ := os.ReadDir(d)
+			for _, e := range es {
+				if e.Type().IsRegular() {
+					all = append(all, e.Name())
+					if i < len(urls) {
+						n.known[e.Name()] = true
+					}
+				}
+			}
+		}
+		if len(all) == 0 {
+			n.desc = "not learned: no regular file below the root after a store"
+			return
+		}
+		L, hexOnly, alnum := len(all[0]), true, true
+		for _, a := range all {
+			if len(a) != L {
+				n.desc = "entry names have no common length: lister invariant not judged"
+				return
+			}
+			for _, ch := range a {
+				if !strings.ContainsRune("0123456789abcdef", ch) {
+					hexOnly = false
+				}
+				if !(ch >= '0' && ch <= '9' || ch >= 'a' && ch <= 'z' || ch >= 'A' && ch <= 'Z') {
+					alnum = false
+				}
+			}
+		}
+		switch {
+		case hexOnly:
+			n.desc = fmt.Sprintf("%d lower-case hex digits", L)
+			n.shape = func(x string) bool {
+				if len(x) != L {
+					return false
+				}
+				for _, ch := range x {
+					if !strings.ContainsRune("0123456789abcdef", ch) {
+						return false
+					}
+				}
+				return true
+			}
+		case alnum:
+			n.desc = fmt.Sprintf("%d letters or digits", L)
+			n.shape = func(x string) bool {
+				if len(x) != L {
+					return false
+				}
+				for _, ch := range x {
+					if !(ch >= '0' && ch <= '9' || ch >= 'a' && ch <= 'z' || ch >= 'A' && ch <= 'Z') {
+						return false
+					}
+				}
+				return true
+			}
+		default:
+			n.desc = "entry names are not plain letters/digits: lister invariant not judged"
+		}
+	})
+	return learned
+}
 
 // postMortem appends the fresh reader's Gets to the history and checks the directory.
 func (w *world) postMortem() (problems []string) {
@@ -289,18 +378,13 @@ func (w *world) postMortem() (problems []string) {
 	if err != nil {
 		return []string{"post-mortem: cannot list cache root: " + err.Error()}
 	}
+	nm := entryNaming(w.bs)
 	for _, e := range es {
-		if !keyRE.MatchString(e.Name()) {
-			continue // a leftover temporary file: fine as long as it does not look like a key
+		if nm.shape == nil || !nm.shape(e.Name()) {
+			continue // a leftover temporary file: fine as long as it does not look like an entry
 		}
-		known := false
-		for _, u := range urls {
-			if keyOf(u) == e.Name() {
-				known = true
-			}
-		}
-		if !known {
-			problems = append(problems, "lister: file "+e.Name()+" looks like an entry but is the key of no stored URL (temporary file mistaken for an entry)")
+		if !nm.known[e.Name()] {
+			problems = append(problems, "lister: file "+e.Name()+" looks like an entry ("+nm.desc+") but is the entry of no stored URL (temporary file mistaken for an entry)")
 		}
 	}
 	return problems
@@ -361,12 +445,10 @@ func (w *world) judge(x *sched.Exec, pm []string) [][2]string {
 				}
 				v = append(v, [2]string{"get/" + class + ":" + who, fmt.Sprintf("Get(u%d) by thread %d returned %s", h.URL+1, h.Thread, h.Out)})
 			}
-		case "set":
-			if h.Out != "ok" {
-				v = append(v, [2]string{"set/failed-without-fault", fmt.Sprintf("Set(u%d,%s) by thread %d: %s", h.URL+1, h.In, h.Thread, h.Out)})
-			}
-		case "new":
-			v = append(v, [2]string{"new-file-cache-failed", h.Out})
+		case "set", "new":
+			// The statement does not promise that a store (or opening the cache) succeeds. A Set that returned an
+			// error is treated like an interrupted one: it may or may not have taken effect (see the register model
+			// below); it shows up in the outcome histogram as "set-error".
 		}
 	}
 	if len(v) > 0 {
@@ -414,7 +496,7 @@ func (w *world) judge(x *sched.Exec, pm []string) [][2]string {
 			}
 			o := porcupine.Operation{ClientId: h.Thread % 50, Call: h.Call, Return: h.Ret, Output: h.Out}
 			if h.Kind == "set" {
-				o.Input = regIn{set: true, val: h.In, crashed: h.Crashed}
+				o.Input = regIn{set: true, val: h.In, crashed: h.Crashed || h.Out != "ok"}
 			} else {
 				o.Input = regIn{}
 				if h.Crashed {
@@ -549,6 +631,9 @@ func runJob(j job) jobResult {
 		for _, h := range w.hist {
 			if h.Kind == "get" {
 				outs = append(outs, fmt.Sprintf("T%d:%s", h.Thread, h.Out))
+			}
+			if (h.Kind == "set" || h.Kind == "new") && !h.Crashed && h.Out != "ok" {
+				outs = append(outs, fmt.Sprintf("T%d:%s-error", h.Thread, h.Kind))
 			}
 		}
 		crashed := false
@@ -694,7 +779,7 @@ func runE4(r *hx.Run, bundleDir, scratch string) e4Result {
 		var stray string
 		if es, err := os.ReadDir(root); err == nil {
 			for _, e := range es {
-				if keyRE.MatchString(e.Name()) && e.Name() != keyOf(urls[0]) {
+				if nm := entryNaming(bs); nm.shape != nil && nm.shape(e.Name()) && !nm.known[e.Name()] {
 					stray = e.Name()
 				}
 			}
